@@ -335,11 +335,11 @@ class Life:
                 R.count("order_checked")
                 self.checked += 1
                 if ev in self.seen[tag]:
-                    self.v("twice/%s/%s/on-%s/%s" % (tag, ev, self.trigger, self.phase),
+                    self.v("twice/%s/%s/on-%s" % (tag, ev, self.trigger),
                            "%s '%s' happened a second time on the same transport connection" % (
                                "callback" if tag == "cb" else "observer", ev))
                 elif RANK[ev] < self.last_rank[tag]:
-                    self.v("order/%s/%s-after-%s/on-%s" % (tag, ev, self.last_ev[tag], self.trigger),
+                    self.v("order/%s/%s-after-%s" % (tag, ev, self.last_ev[tag]),
                            "%s '%s' after '%s' (required order: connect, join, leave, disconnect)" % (
                                tag, ev, self.last_ev[tag]))
                 self.seen[tag].add(ev)
@@ -354,7 +354,7 @@ class Life:
                     self.goodbyes += 1
                     R.count("goodbye_tx_seen")
                     if self.goodbyes > 1:
-                        self.v("goodbye-twice/on-%s/%s" % (self.trigger, self.phase),
+                        self.v("goodbye-twice/on-%s" % self.trigger,
                                "the client sent GOODBYE %d times in one session" % self.goodbyes)
                 elif e[1] == "ABORT":
                     self.client_abort = True
@@ -808,7 +808,7 @@ class Life:
             R.count("pending_checked_" + f.kind)
             self.checked += 1
             if not f.done:
-                self.v("pending-after-end/%s/issued-%s/%s" % (f.kind, f.issued_phase, self.end_reason),
+                self.v("pending-after-end/%s/%s" % (f.kind, self.end_reason),
                        "%s request issued in phase '%s' is still pending after the transport is gone (session end: %s)" % (
                            f.kind, f.issued_phase, self.end_reason))
             elif f.results[0][0] == "ok" and self.end_reason and not self.end_reason.startswith("illegal"):
